@@ -1,5 +1,6 @@
 """Handle representations necessary for informative error messages."""
 import ast
+import functools
 import inspect
 import re
 import reprlib
@@ -196,7 +197,24 @@ def is_lambda(a_function: CallableT) -> bool:
 
     :return: True if condition is defined as lambda function
     """
-    return a_function.__name__ == "<lambda>"
+    return getattr(a_function, "__name__", None) == "<lambda>"
+
+
+def _name_of_callable(a_callable: Any) -> str:
+    """
+    Determine the name by which a condition given as a non-lambda is referred to in the messages.
+
+    Callable objects and ``functools.partial`` objects are legitimate conditions, but bear no ``__name__``.
+    We do not use ``repr`` for them as it usually includes the memory address.
+    """
+    name = getattr(a_callable, "__name__", None)
+    if isinstance(name, str):
+        return name
+
+    if isinstance(a_callable, functools.partial):
+        return _name_of_callable(a_callable.func)
+
+    return type(a_callable).__name__
 
 
 class ConditionLambdaInspection:
@@ -633,7 +651,7 @@ def represent_condition(condition: CallableT) -> str:
     """Represent the condition as a string."""
     lambda_inspection = None  # type: Optional[ConditionLambdaInspection]
     if not is_lambda(a_function=condition):
-        condition_repr = condition.__name__
+        condition_repr = _name_of_callable(condition)
     else:
         # We need to extract the source code corresponding to the decorator since inspect.getsource() is broken with
         # lambdas.
@@ -656,7 +674,7 @@ def generate_message(contract: Contract, resolved_kwargs: Mapping[str, Any]) -> 
 
     lambda_inspection = None  # type: Optional[ConditionLambdaInspection]
     if not is_lambda(a_function=contract.condition):
-        condition_text = contract.condition.__name__
+        condition_text = _name_of_callable(contract.condition)
     else:
         # We need to extract the source code corresponding to the decorator since inspect.getsource() is broken with
         # lambdas.
